@@ -37,8 +37,8 @@ RULE = ("Hypothesis-generated sessions as in C01 plus 650 events (single-line, m
         "during a delivery; distinct = distinct canonical JSON.")
 ASSUMPTIONS = [
     "events only appear between complete replies (control-spec: replies are not interleaved with events)",
-    "a listener removed by another listener during a delivery may or may not get that event; a listener "
-    "added during a delivery may or may not get it",
+    "a listener added during a delivery may or may not get that event; a listener removed by another listener "
+    "during a delivery was registered when the event arrived and must still get it",
     "the payload handed to a listener is the text after the event name; for data-block events the closing "
     "'650 OK' may or may not be appended; when the first line has nothing after the name the payload may or "
     "may not start with the line break",
@@ -446,7 +446,9 @@ class _Run(object):
             for g in got:
                 pass
             for lid in s0:
-                must = lid in after_set or self._removed_itself(lid, mark, cur)
+                # "to every listener registered for that event name at that moment": registered when the event
+                # arrived - also one that another listener unsubscribes while the event is being delivered
+                must = True
                 if must and lid not in receivers:
                     tag = "event-missed"
                     if self._cmd_in_flight_at(self._event_end(i) - 1):
